@@ -46,6 +46,19 @@ struct _parser_t {
     int inner_text_used;
 };
 
+#if defined(__GNUC__) || defined(__clang__)
+/* XML_SetReparseDeferralEnabled() appeared in expat 2.6.0 and has been
+ * back-ported by distributions without a version bump, so bind to it only if
+ * the library we are linked with provides it. */
+extern XML_Bool XML_SetReparseDeferralEnabled(XML_Parser parser,
+                                              XML_Bool enabled)
+    __attribute__((weak));
+#define HAVE_REPARSE_DEFERRAL_API 1
+#elif (XML_MAJOR_VERSION > 2) || \
+    (XML_MAJOR_VERSION == 2 && XML_MINOR_VERSION >= 6)
+#define HAVE_REPARSE_DEFERRAL_API 2
+#endif
+
 /* Use the Unit Separator to delimit namespace and name in our XML */
 const XML_Char namespace_sep = '\x1F';
 
@@ -363,6 +376,14 @@ int parser_reset(parser_t *parser)
     XML_SetUserData(parser->expat, parser);
     XML_SetElementHandler(parser->expat, _start_element, _end_element);
     XML_SetCharacterDataHandler(parser->expat, _characters);
+    /* An XMPP stream is fed as it arrives: a token must be delivered as soon
+     * as it is complete, not when the amount of buffered data has doubled. */
+#if HAVE_REPARSE_DEFERRAL_API == 1
+    if (XML_SetReparseDeferralEnabled)
+        XML_SetReparseDeferralEnabled(parser->expat, XML_FALSE);
+#elif HAVE_REPARSE_DEFERRAL_API == 2
+    XML_SetReparseDeferralEnabled(parser->expat, XML_FALSE);
+#endif
 
     return 1;
 }
